@@ -469,7 +469,7 @@ func init() {
 		"(encoding/binary.bigEndian).PutUint64": {apply: (*fnTrans).mBEPut, mods: bytesMods},
 		"(*sync.Pool).Get":        {pure: true},
 		"(*sync.Pool).Put":        {pure: true},
-		"math/rand.Float64":       {pure: true},
+		"math/rand.Float64":       {pure: true, apply: (*fnTrans).mRandFloat},
 		"math/rand.Intn":          {pure: true},
 		"math/rand.Uint32":        {pure: true},
 	}
@@ -530,6 +530,10 @@ func (t *fnTrans) call(in ssa.Instruction, cc *ssa.CallCommon, res ssa.Value) {
 	}()
 	if site != "" {
 		t.siteBefore(site, in, cc)
+	}
+	if t.contract != nil {
+		// event log: which functions this activation called (spec: called("Name"))
+		t.event("called", t.c.declare("callee:"+calleeName(cc), "Int"), "")
 	}
 	if b, ok := cc.Value.(*ssa.Builtin); ok && !cc.IsInvoke() {
 		t.builtin(in, b, cc, res)
@@ -1334,4 +1338,13 @@ func sortedKeys(m map[string]bool) []string {
 	}
 	sort.Strings(out)
 	return out
+}
+
+
+func (t *fnTrans) mRandFloat(in ssa.Instruction, cc *ssa.CallCommon, res ssa.Value) bool {
+	r := t.freshResults(res, nameOf(res, "rnd"))
+	if len(r) == 1 {
+		t.assume("(and (<= 0.0 " + r[0] + ") (< " + r[0] + " 1.0))")
+	}
+	return true
 }
